@@ -23,6 +23,7 @@ DEFS = ("Definition K := cx_ops QF.\n"
 COND_MAX = 1e5          # generator-side exclusion of ill-conditioned subtractions (counted)
 TOL_TEXTBOOK = 1e-7     # Mie vs textbook / lens series (relative to max |S|)
 TOL_MULTI = 1e-2        # vs Multisphere() with its DEFAULT truncation tolerances (qeps1 = 1e-5): measured <= 5e-3
+TOL_MULTI_RESONANT = 5e-2   # |m| x > 20 with the default tolerances, only when the tight-tolerance run agrees (see stage_explore_smatrix)
 TOL_MULTI_TIGHT = 1e-4  # vs Multisphere(qeps1=1e-12, qeps2=1e-15, eps=1e-10): measured <= 4e-5 (typ. 1e-6)
 TOL_TMAT = 1e-4         # T-matrix code on a sphere vs far-field Mie: measured <= 6e-7 once the S matrix is not transposed
 TOL_LAYER = 1e-7        # layered reductions on the real solver (uniform / merged): measured <= 1e-14
@@ -641,6 +642,12 @@ def stage_explore_smatrix(ctx):
                          ("multisphere-mie", TOL_MULTI), ("multisphere_tight-mie", TOL_MULTI_TIGHT)):
             if key in res:
                 worst[key] = max(worst.get(key, 0.0), res[key])
+                if key == "multisphere-mie" and abs(complex(m)) * x > 20 and res.get("multisphere_tight-mie", 1.0) <= TOL_MULTI_TIGHT:
+                    # optically large, high-index spheres sit on narrow resonances: the DEFAULT truncation tolerances
+                    # (qeps1 = 1e-5) then cost up to a few per cent (thorough tier: 2.5e-2 at m = 2.41, x = 12.8) while the
+                    # same solver with tight tolerances agrees to 1e-5; "solver accuracy" of the default setting is not 1e-2 there
+                    tol = TOL_MULTI_RESONANT
+                    ctx.count("x-smatrix:multisphere-default-tolerance:resonant-regime")
                 if not (res[key] <= tol):
                     ctx.violation("x-smatrix:" + key, "amplitude scattering matrices differ: %s = %.3g > %g (m=%r, x=%g)"
                                   % (key, res[key], tol, m, x),
@@ -934,6 +941,8 @@ def replay(ctx, data):
         print("replay:", res)
         key = d.get("which")
         tol = {"multisphere-mie": TOL_MULTI, "multisphere_tight-mie": TOL_MULTI_TIGHT, "mie-offdiag": 1e-12}.get(key, TOL_TEXTBOOK)
+        if key == "multisphere-mie" and abs(complex(_cx(d["m"]))) * d["x"] > 20 and res.get("multisphere_tight-mie", 1.0) <= TOL_MULTI_TIGHT:
+            tol = TOL_MULTI_RESONANT
         if key in res and not (res[key] <= tol):
             ctx.violation(data["key"], data["what"], d)
     elif kind == "field":
